@@ -1,6 +1,7 @@
 package main
 
 import (
+	"syscall"
 	"encoding/json"
 	"fmt"
 	"hash/fnv"
@@ -303,6 +304,7 @@ func coordinator(id, tr string) int {
 				progp := filepath.Join(scratch, fmt.Sprintf("w%d.prog.json", sh))
 				cmd := exec.Command(os.Args[0], "worker", id, tr, strconv.Itoa(sh), strconv.Itoa(nw), strconv.FormatInt(from, 10), outp, progp)
 				cmd.Env = append(os.Environ(), "GOMAXPROCS=1")
+				cmd.SysProcAttr = &syscall.SysProcAttr{Pdeathsig: syscall.SIGKILL}
 				if c.Serial {
 					cmd.Env = os.Environ()
 					cmd.Stdout = os.Stderr
